@@ -12,7 +12,8 @@ THEOREMS = ["C17_inv", "C17_token_pos", "C17_lines", "C17_lex_error", "C17_node_
 TIES = ['SCAN', 'PARSE', 'MSG']
 RULE = ("valid generated programs x every top-level line position x erroneous statement kind (undefined symbol in an "
         "operand, in .db/.dw/.dl, in *=; bad size suffix; bad index register; unterminated string with and without a "
-        "following line; invalid character; .text without table), in the main file and in an .include'd file, with random "
+        "following line; invalid character; .text without table), in the main file (also after an .include of a correct file) and in an .include'd file, "
+        "at top level or inside a block / scope / .if / .else / .for / macro body / nested constructs, with random "
         "indentation and preceded by comments, blank lines, blocks, macro definitions and multi-line comments; the reported "
         "(file, zero-based line, column for lexical errors, quoted line) must be the statement's; non-trivial: every case")
 PROVED_NOTE = ("proved: the scanner's line-tracking invariant; every token's line/column are the closed forms of its start "
@@ -59,6 +60,13 @@ NOISE = ["", "", "; a comment", "   ; indented comment", "/* one line */", "/* t
          "; page\x0cbreak", "/* sep\u2028arator */", "; vt\x0b fs\x1c gs\x1d rs\x1e nel\x85 ps\u2029", "/* ff\x0c */", ".ascii 'a\x0cb'", "/*/ slash first */", "/*** stars ***/", "/**/", "\n", "; only\n\n; comments\n"]
 
 
+# (name, lines opening the construct, lines closing it)
+WRAPS = [("block", ["{"], ["}"]), ("scope", [".scope zz_ws {"], ["}"]), ("if", [".if 1 {"], ["}"]),
+         ("if-else", [".if 0 {", "nop", "} else {"], ["}"]), ("for", [".for zz_wi := 0, 1 {"], ["}"]),
+         ("macro", [".macro zz_wm() {"], ["}", "zz_wm()"]), ("nested", ["{", ".scope zz_wn {", ".if 1 {"], ["}", "}", "}"]),
+         ("macro-in-for", [".macro zz_wf() {"], ["}", ".for zz_wj := 0, 1 {", "zz_wf()", "}"])]
+
+
 def cases(ctx):
     rng, tier = ctx["rng"], ctx["tier"]
     out = []
@@ -86,13 +94,22 @@ def cases(ctx):
                 if kind in ("unterminated-comment",) and tail:
                     tail = ""
                 err_line = indent + stmt
-                block = ([noise] if noise else []) + [err_line] + ([tail] if tail else [])
+                # the statement may stand inside an enclosing construct (the report still names ITS line), and in the
+                # main file it may come after an .include of a correct file (whose lines do not count)
+                wrap = rng.choice(WRAPS) if rng.random() < 0.45 else None
+                head = list(wrap[1]) if wrap else []
+                foot = list(wrap[2]) if wrap else []
+                if where == "main" and rng.random() < 0.3:
+                    head = [".include 'inc/ok.s'"] + head
+                noise = "\n".join(([noise] if noise else []) + head)
+                block = ([noise] if noise else []) + [err_line] + ([tail] if tail else []) + foot
                 if where == "main":
                     new_lines = lines[:pos] + block + lines[pos:]
                     src = "\n".join(new_lines)
                     line_no = len("\n".join(lines[:pos] + ([noise] if noise else [])).split("\n")) if (pos or noise) else 0
                     line_no = ("\n".join(lines[:pos] + ([noise] if noise else []) + [""])).count("\n")
-                    files, fname = {}, e2e.FNAME
+                    files, fname = ({"inc/ok.s": "; a correct included file\nzz_inc_ok:\n    nop\n\n    rts\n"}
+                                    if ".include 'inc/ok.s'" in src else {}), e2e.FNAME
                 else:
                     inc_lines = ["; included file", "inc_label:", "    nop"] + block + ["rts"]
                     inc = "\n".join(inc_lines) + "\n"
